@@ -1913,6 +1913,9 @@ impl Context {
             return (Arc::new(Value::None), unit!(), vec![]);
         }
         let alloc_insert_point = self.get_current_basicblock().0.len();
+        // An element may contain `if`/`match`, which moves on to new basic blocks: remember
+        // the block the insertion point belongs to.
+        let alloc_insert_bb = self.get_ctxdata().current_bb;
         let dst = self.gen_new_register();
         let mut states = vec![];
         for (i, e) in items.iter().enumerate() {
@@ -1925,10 +1928,15 @@ impl Context {
             states.extend(s);
             self.push_inst(Instruction::Store(ptr, v, elem_ty));
         }
-        self.get_current_basicblock().0.insert(
-            alloc_insert_point,
-            (dst.clone(), Instruction::Alloc(alloc_ty)),
-        );
+        self.get_current_fn()
+            .body
+            .get_mut(alloc_insert_bb)
+            .expect("no basic block found")
+            .0
+            .insert(
+                alloc_insert_point,
+                (dst.clone(), Instruction::Alloc(alloc_ty)),
+            );
 
         // pass only the head of the tuple, and the length can be known
         // from the type information.
